@@ -34,11 +34,11 @@ def ncf2height_pressure(ncffile, outpath, hght='HGHT', pres='PRES',
         for i, (h2d, p2d) in enumerate(zip(h3d, p3d)):
             h2d = h2d.astype('>f')
             p2d = p2d.astype('>f')
-            buf = array((h2d.size + 2) * 4, ndmin=1).astype('>i').tostring()
-            outfile.write(buf + t.tostring() + d.tostring())
+            buf = array((h2d.size + 2) * 4, ndmin=1).astype('>i').tobytes()
+            outfile.write(buf + t.tobytes() + d.tobytes())
             h2d.tofile(outfile)
             outfile.write(buf)
-            outfile.write(buf + t.tostring() + d.tostring())
+            outfile.write(buf + t.tobytes() + d.tobytes())
             p2d.tofile(outfile)
             outfile.write(buf)
     outfile.flush()
